@@ -3,7 +3,8 @@
 Spec: PageSem.NoteOf (tree-based) refined by PageWalk (per-scope stores + resets).
 Design level: MC_PageSkel - every legal header sequence up to the bound, every scope carrying
 its own unique tags / link / property / shared key / optional date: RefinesSem, NoLeak,
-LegalAgrees.  Binding: every page of the deterministic-decoration configuration is compiled by
+LegalAgrees; the same on deep skeletons (up to 6 / 7 headers of any legal level sequence, one note under each:
+what a closed sibling or cousin section left behind shows in the next note).  Binding: every page of the deterministic-decoration configuration is compiled by
 the real compiler and its tags, links, properties and create date compared by TLC; random pages
 with dense metadata (shared names between scopes, digits-only tags, quoted and bullet
 properties, [^X]) go the same way."""
@@ -31,8 +32,15 @@ def run(ctx):
     if ctx.quick:       # a full page contains each of its prefixes (the walk only appends, the tree only looks back)
         top = max(len(p["body"]) for p in skel)
         skel = [p for p in skel if len(p["body"]) == top]
+    # deep skeletons: every legal sequence of up to 6 (thorough: 7) headers, one undecorated note under each
+    deep_cfg = "MC_PageSkel_deep.cfg" if ctx.quick else "MC_PageSkel_deep7.cfg"
+    deep, _ = pages.pages_from_tlc("MC_PageSkel", deep_cfg, ctx, f"{deep_cfg}: deep skeletons, one note per section")
+    deep = [p for p in deep if p["body"] and p["body"][-1]["k"] == "item"]
+    if ctx.quick:       # (as above: the longest pages contain the shorter ones)
+        deep = [p for p in deep if sum(1 for l in p["body"] if l["k"] == "sec") >= 5]
     ctx.set("tlc_skeleton_pages", len(skel))
-    cases = [(f"skel{i}", p, pages.TODAY) for i, p in enumerate(skel)]
+    ctx.set("tlc_deep_skeleton_pages", len(deep))
+    cases = [(f"skel{i}", p, pages.TODAY) for i, p in enumerate(skel)] + [(f"deep{i}", p, pages.TODAY) for i, p in enumerate(deep)]
     cases += pc.random_cases(ctx.seed + 2, 150 if ctx.quick else 4000, lines=(10, 45), meta_p=0.6)
     recs = pages.compile_cases(cases)
     verdicts = pages.tlc_verdicts(recs, ctx, "c02")
